@@ -92,7 +92,7 @@ func evalC07(k xCase) []pbt.Violation {
 }
 
 func TestC07(t *testing.T) {
-	runXProp(t, xProp{id: "C07",
+	runXPropWith(t, xProp{id: "C07",
 		rule: "well-formed programs including every identifier shape for packet and field names (UpperCamel, lowerCamel, snake_case, ALLCAPS, acronym runs such as ClOrdID, digits, underscores), fields whose names differ from their types, packets referenced before their declaration and empty packets, under all option configurations. When the in-process compile reports no diagnostics: (a) the emitted files of each codec language, including the emitted self-tests, must be accepted by the real toolchain against the stand-in runtime API (go build + test compile, rustc lib + --test, javac main + test, Python import of module and test module, g++ on header and test file); (b) a generated driver that names every declared packet type and every declared member at its declaration-site spelling must build, and a default message must survive decode (missing member or step); (c) no emitted file contains placeholder text ('not supported', 'unsupport', 'unknow', 'TODO', '-- ' lines outside Lua). A diagnostic with no files is an accepted outcome. Non-trivial = >= 2 packets or a composite member, and at least one non-canonical identifier shape; distinct = hash of (program, languages); evaluations = (language, message) cells.",
 		eval: evalC07, tests: true, viaCLI: true,
 		cfg: func(rt *rapid.T, avoid map[string]bool) (dsl.GenCfg, int, dsl.ValCfg, bool) {
@@ -109,5 +109,24 @@ func TestC07(t *testing.T) {
 			return (len(k.Prog.Packets) >= 2 || composite) && dsl.Has(f, "shape:field")
 		},
 		assume: []string{"the driver refers to members by the name used at their declaration site in each language (computed with the same strcase v0.3.0 conversions)"},
-	})
+	}, optionValueSpelling)
+}
+
+var prefixOptRe = regexp.MustCompile(`((?:String|Array)PrefixLenType\s*=\s*)u(8|16|32|64)\b`)
+
+// optionValueSpelling writes, in one case of twelve, the prefix-type options with the long type
+// names (uint8 ...) that are aliases for field types. The compiler's own diagnostic lists only
+// u8,u16,u32,u64 as option values, so a diagnostic is the expected outcome; what C07 demands is
+// that a compiler which accepts the text also emits code for it that builds and works as u8 ...
+func optionValueSpelling(rt *rapid.T, k *xCase) {
+	if rapid.IntRange(0, 11).Draw(rt, "long_option_values") != 0 {
+		return
+	}
+	text := k.Text
+	if text == "" {
+		text = dsl.PlainText(k.Prog)
+	}
+	if out := prefixOptRe.ReplaceAllString(text, "${1}uint$2"); out != text {
+		k.Text = out
+	}
 }
